@@ -102,7 +102,7 @@ P("C05", "proof", "Lean 4 theorems (lexicographic total-order laws, eq iff compo
   "diffed against the recorded chunks). Owned / UTF-8 / typed / mixed-type impls (every impl_cmp! / impl_cmp_bytes! "
   "pair in both operand orders) and HashSet/BTreeSet lookups: oracle (implementation vs implementation). Model=code by "
   "differential testing.",
-  theorems=["TP.C05.eq_iff_comps", "TP.C05.cmp_lexicographic", "TP.C05.cmp_total_order", "TP.C05.cmp_transitive",
+  theorems=["TP.C05.cmp_pairs_covered", "TP.C05.eq_iff_comps", "TP.C05.cmp_lexicographic", "TP.C05.cmp_total_order", "TP.C05.cmp_transitive",
             "TP.C05.cmp_equal_iff_eq", "TP.C05.eq_implies_same_hash", "TP.isOrd_lexCmp",
             "TP.C05b.hash_loop_eq_spec", "TP.C05b.eq_implies_same_loop_hash", "TP.HashLoop.hashBody_toks",
             "TP.HashLoop.hashBody_eq_go"],
